@@ -92,10 +92,13 @@ def drv (args : List String) : String :=
     | some plugins, some oc, some cds, some segs =>
       -- a hook the implementation never ran must not be needed by the model either
       let missing : PluginRes := .crash [[0x6d, 0x69, 0x73, 0x73]]
+      -- the real HttpWebServerPlugin is the class that handles WEB_SERVER: its UTF-8 path check is
+      -- predicted by the model (`webGuard`), the rest of its behaviour is the recorded one
+      let webPid := (plugins.findIdx? (fun ps => ps.contains Px.Gen.proto_WEB_SERVER)).getD plugins.length
       let cfg : Cfg := {
         proxyProtocol := flag == "pp"
         plugins := plugins
-        onComplete := fun _ _ => oc.getD missing
+        onComplete := webGuard Px.Gen.pkt_BAD_REQUEST_RESPONSE_PKT webPid (fun _ _ => oc.getD missing)
         onClientData := fun _ k _ => cds.getD k missing }
       " | ".intercalate (obsRun cfg {} segs)
     | _, _, _, _ => "bad-op"
